@@ -10,11 +10,17 @@
       primitives       <prim>_frame, <prim>_srv, <prim>_crashed for stop_renewer ren_send ren_recv set_arm ren_send_on
                        ren_fire do_step srv_advance_to adv_loop do_advance stop_all; do_close_eq; do_compete_spec;
                        do_probe_frame; next_fire_some / _min / _none
-      Unlock           do_unlock_eq = unlock_stop ; unlock_rpc ; mark_unl, each with its frame / spec
+      Unlock           do_unlock_eq = unlock_stop ; unlock_rpc ; mark_unl (all of Model/Client.v), each with its frame / spec
+      Unlock in steps  do_unlock_begin_eq / _send_eq / _end_eq, _noop, _locked;
+                       do_unlock_begin_frame _srv _now _map _other _holds_other _trace _crashed _le _unl
+                       (with stop_renewer_trace_eq unlock_stop_trace_cases unlock_begin_stop_frame);
+                       do_unlock_send_frame _holds _crashed _map _srv _le; do_unlock_end_frame _other _srv _map _holds
+                       _crashed _trace _le
       Lock / TryLock   do_acquire_cases acquire_event_facts acquire_answered_fields
-      basic            basic_frame basic_push ... basic_init basic_step t_basic
+      basic            basic_frame basic_push ... basic_emit basic_do_unlock_begin / _send / _end basic_init basic_step t_basic
       steps            step_holds_cases step_hold_mono run_hold_mono step_exited step_now(_mono/_same)
-                       step_crash_kinds do_unlock_crashed do_acquire_crashed
+                       step_crash_kinds do_unlock_crashed do_acquire_crashed (IUnlockBegin like IUnlock; IUnlockSend /
+                       IUnlockEnd never panic)
       no twin          no_twin_step no_outofsync_step t_no_twin *)
 From Coq Require Import Lia ZifyBool ZifyNat ZifyN Decimal DecimalNat.
 From Ldlm Require Import Model.Base Model.Err Model.Seq Model.Client Gen.Consts Proofs.SeqLemmasKey
@@ -932,9 +938,9 @@ Proof.
   set (st0 := emit (TUnlockCall j (now st)) st).
   destruct (unlock_stop_trace_cases cc (h_name h) st0) as [[T C]|(i & r & Hna & Hm & Hr & Hp & C & T)].
   - left. destruct (cs_crashed (unlock_stop cc (h_name h) st0)) eqn:Hc.
-    + split; [exact C|exact T].
+    + split; [rewrite Hc; exact C|exact T].
     + destruct (mark_unl_other j (unlock_stop cc (h_name h) st0)) as (_ & _ & -> & _ & _ & -> & _).
-      split; [exact C|exact T].
+      split; [rewrite Hc; exact C|exact T].
   - right. exists i, r. rewrite C. split_and!; try done. rewrite T. cbn. by rewrite <- app_assoc.
 Qed.
 
@@ -968,7 +974,7 @@ Proof.
   rewrite (do_unlock_begin_locked cc j st h Hh Hl) in Hc, Hh'. cbv zeta in Hc, Hh'.
   destruct (cs_crashed (unlock_stop _ _ _)) eqn:Hc1; [congruence|].
   rewrite mark_unl_holds, decide_True in Hh' by done.
-  destruct (cs_holds _ !! j); [|done]. by injection Hh' as <-.
+  revert Hh'. destruct (cs_holds (unlock_stop _ _ _) !! j); [|done]. cbn. by intros [= <-].
 Qed.
 
 (** *** do_unlock_send: cs_srv (one EUnlock of the hold's (name, key)) and the trace *)
